@@ -184,6 +184,24 @@ class Sig:
         b.update(self.ret.implied(self.ret_l))
         return {(x, y) for (x, y) in b if x != y}
 
+    def def_site_bounds(self):
+        """bounds that come from the *definition* of a used type (S2b<'a, 'b: 'a>), instantiated at each use"""
+        b = set()
+        for f, l in list(self.params) + [(self.ret, self.ret_l)]:
+            if f.name.startswith("S2b<"):
+                b.add((l[1], l[0]))
+        return {(x, y) for (x, y) in b if x != y}
+
+    def ref_implied_bounds(self):
+        """bounds implied by `&'x T<'y>` occurrences (inserted automatically by the lowerer)"""
+        b = set()
+        if self.selff == "&'x self on OpL<'y>":
+            b.add((self.self_l[1], self.self_l[0]))
+        for f, l in list(self.params) + [(self.ret, self.ret_l)]:
+            if not f.name.startswith("S2b<"):
+                b.update(f.implied(l))
+        return {(x, y) for (x, y) in b if x != y}
+
     def outlives_closure(self, with_implied=True):
         """set of (longer, shorter) pairs, reflexive-transitive closure over declared (and implied) bounds."""
         ls = list(self.lts)
